@@ -733,6 +733,9 @@ impl SixtyCycleDay {
       if !solar_day.is_before(spring_solar_day) {
         lunar_year = lunar_year.next(1);
       }
+    } else {
+      // 农历年早于公历年开始（如公元9至23年岁首在公历12月），此时已过当年立春
+      lunar_year = LunarYear::from_year(solar_year);
     }
     let term: SolarTerm = solar_day.get_term();
     let mut index: isize = term.get_index() as isize - 3;
@@ -908,6 +911,9 @@ impl SixtyCycleHour {
       if !solar_time.is_before(spring_solar_time) {
         lunar_year = lunar_year.next(1);
       }
+    } else {
+      // 农历年早于公历年开始（如公元9至23年岁首在公历12月），此时已过当年立春
+      lunar_year = LunarYear::from_year(solar_year);
     }
     let term: SolarTerm = solar_time.get_term();
     let mut index: isize = term.get_index() as isize - 3;
